@@ -122,11 +122,11 @@ def run_translators(names):
 
 # ----------------------------------------------------------------------------- Coq
 
-def build_coq(timeout=3000):
+def build_coq(timeout=3000, targets=None):
     """full .vo build of the development (incremental).  Returns (ok, log)."""
     with Lock("coq"):
         run([os.path.join(VERIF, "lib", "gen_coqproject.sh")], check=True)
-        rc, out = run(["make", "-j" + NPROC], cwd=COQ, timeout=timeout)
+        rc, out = run(["make", "-k", "-j" + NPROC] + [t[:-2] + ".vo" for t in (targets or [])], cwd=COQ, timeout=timeout)
         return rc == 0, out
 
 
@@ -383,7 +383,10 @@ class Check:
                 if st != "ok":
                     self.proof_broken = dict(kind="translator", name=name, message=info)
                     return False
-        ok, mlog = build_coq()
+        # the whole development is built (so unrelated breakage is visible in the log), but only the
+        # dependency cone of this property's files decides this property
+        build_coq()
+        ok, mlog = build_coq(targets=files)
         self.cov["checker_cmd"] = "coq_makefile -f _CoqProject && make -j%s (full .vo build, Coq 8.16.1) ; coqc %s ; Print Assumptions" % (
             NPROC, " ".join(files))
         if not ok:
